@@ -25,7 +25,7 @@ RULE = ('random well-bracketed programs over seterr/seterrcall/geterrcall/errche
         "<= 7 instructions per level, 'all', unknown kinds/reactions, exits by exception) with the profile compared "
         'after every instruction, plus the reaction table at the four errcheck call sites: constructor (7 kinds x 5 reactions), filter '
         '(empty on the result; the six other kinds on a table built while the kind was ignored and then filtered in place), '
-        'update_ids(inplace=False) (obsdup/sampdup on the renamed copy; and the six non-empty kinds on a latent-defective table with a mapping that renames nothing, in place) and collapse (empty); '
+        'update_ids(inplace=False) (obsdup/sampdup on the renamed copy; and the six non-empty kinds on a latent-defective table with a mapping that renames nothing, in place) and collapse (empty; and the six non-empty kinds travelling from the axis that is not collapsed into the result); '
         'non-trivial = a program that changes the profile at least once or a triggering reaction cell; distinct by case hash')
 TRUSTED = ['translator tools/py2v (fail-closed, self-tested by tools/py2v/selftest.py) with its signature file '
            'tools/py2v/sigs/err.json and the hand-written types coq/Model/ErrTypes.v; the generated model is also '
@@ -218,7 +218,7 @@ def run_react(c):
         src = list(t.ids(axis=ax))
         idmap = {src[0]: 'q', src[1]: 'q'} if c['trigger'] else {src[0]: 'q'}
         ev = observe(lambda: t.update_ids(idmap, axis=ax, strict=False, inplace=False) and None)
-    elif site in ('filter_inplace', 'update_ids_noop'):
+    elif site in ('filter_inplace', 'update_ids_noop', 'collapse_kind'):
         # a table that was built while the kind was ignored, then an in-place filter (keeping every id
         # of the axis the defect is not on) under the configured reaction: filter ends in errcheck(table)
         E.seterr(all='ignore')
@@ -229,7 +229,11 @@ def run_react(c):
             E.seterrcall(c['errkind'], _cb(c['errkind'], 1))
         ax = 'sample' if c['errkind'].startswith('obs') else 'observation'
         keep = list(dict.fromkeys(t.ids(axis=ax)))
-        if site == 'update_ids_noop':
+        if site == 'collapse_kind':
+            # collapse builds its result through the validating constructor: a defect on the axis that is NOT
+            # collapsed travels into the result and must meet the configured reaction there
+            ev = observe(lambda: t.collapse(lambda i, m: 'g', axis=ax, norm=False) and None)
+        elif site == 'update_ids_noop':
             # update_ids ends in errcheck(result) whatever the mapping does: a mapping that renames nothing
             # (empty, strict=False) on the axis the defect is not on, in place
             ev = observe(lambda: t.update_ids({}, axis=ax, strict=False, inplace=True) and None)
@@ -285,8 +289,17 @@ def encode(c):
         prog = [['seterr', [[c['errkind'], c['reaction']]]]]
         if c['reaction'] == 'call':
             prog.append(['setcall', c['errkind'], 1])
-        args = ['empty'] if c['site'] == 'collapse' else []
+        args = ['empty'] if c['site'] in ('collapse', 'collapse_kind') else []
         prog.append(['check', c['view'], args])
+        if c['site'] == 'collapse_kind':
+            # the collapsed table: one group 'g' on the collapsed axis (with its collapsed-ids metadata), the other
+            # axis as it was, defect included
+            v = c['view']
+            if c['errkind'].startswith('obs'):
+                v2 = dict(v, cols=1, sids=[99], smd=1)
+            else:
+                v2 = dict(v, rows=1, oids=[99], omd=1)
+            prog.append(['check', v2, []])
         if c['site'] == 'collapse':
             # collapse checks 'empty' on the receiver, then the constructor checks the collapsed table
             # (one collapsed sample 'g' over the receiver's observations; F25 repaired: coherent also when empty)
@@ -330,7 +343,7 @@ def dec_obs(t):
 def decode(tree, c):
     out = [dec_obs(o) for o in tree]
     if c['kind'] == 'react':
-        if c['site'] == 'collapse':
+        if c['site'] in ('collapse', 'collapse_kind'):
             first, second = out[-4], out[-2]
             ev = first if first[1] != ['ok', ['none']] else second
             return [ev, out[-1]]
@@ -446,7 +459,7 @@ def react_cases():
         for r in REACTIONS:
             for trig in (True, False):
                 rows, cols, oids, sids, omd, smd = _defect(k, trig)
-                for site in ('filter_inplace', 'update_ids_noop'):
+                for site in ('filter_inplace', 'update_ids_noop', 'collapse_kind'):
                     out.append({'kind': 'react', 'site': site, 'errkind': k, 'reaction': r, 'trigger': trig,
                                 'view': view_of_table_args(rows, cols, oids, sids, omd, smd)})
     for site in ('filter', 'collapse'):
